@@ -450,10 +450,15 @@ static Type *declspec(Token **rest, Token *tok, VarAttr *attr) {
         error_tok(tok, "_Alignas is not allowed in this context");
       tok = skip(tok->next, "(");
 
+      // Of several alignment specifiers the strictest one applies,
+      // and _Alignas(0) has no effect (C11 6.7.5p6).
+      int align;
       if (is_typename(tok))
-        attr->align = typename(&tok, tok)->align;
+        align = typename(&tok, tok)->align;
       else
-        attr->align = const_expr(&tok, tok);
+        align = const_expr(&tok, tok);
+      if (align > attr->align)
+        attr->align = align;
       tok = skip(tok, ")");
       continue;
     }
